@@ -31,7 +31,10 @@ def mk : IO Handler := do
       | none => return "bad-op"
     | ["pts", pl] =>
       match unhex pl with
-      | some b => return b2s (ptsEqualsDts b)
+      | some b =>
+        match ptsEqualsDtsC b with     -- the index-checked rendering; `none` = out-of-range access
+        | some r => return b2s r
+        | none => return "panic"
       | none => return "bad-op"
     | _ => return "bad-op"
 
